@@ -202,6 +202,31 @@ fn indy(out: &mut Vec<DetCase>) {
 	}
 }
 
+/// k diamonds on top of each other (coq/C15/Theory3.v `tower`): 2^(k+2) - 3 paths start at the top class although the
+/// table has 4k edges; get_ancestors has no visited set and walks every path.  The bound of the bridge is the bottom class.
+fn towers(out: &mut Vec<DetCase>) {
+	for (k, order) in [(3usize, 0usize), (6, 1), (9, 0), (9, 2)] {
+		let t = |i: usize| format!("p/T{i}"); let l = |i: usize| format!("p/L{i}"); let r = |i: usize| format!("p/R{i}");
+		let mut jar = vec![];
+		for i in 0..k {
+			let (lt, rt) = (l(i), r(i));
+			jar.push(match order { 0 => class(&t(i), Some(&lt), &[&rt]), 1 => class(&t(i), None, &[&rt, &lt]), _ => class(&t(i), Some(&rt), &[&lt]) });
+			jar.push(class(&lt, Some(&t(i + 1)), &[]));
+			jar.push(class(&rt, None, &[&t(i + 1)]));
+		}
+		jar.push(class(&t(k), None, &[]));
+		if order == 2 { jar.reverse(); }
+		let (sd, bd) = (format!("(L{};)V", t(0)), format!("(L{};)V", t(k)));
+		let ti = jar.iter().position(|c| c.name == s(&t(0))).unwrap();
+		jar[ti].methods.push(meth(ACC_PUBLIC, "m", &sd, Some(vec![])));
+		jar[ti].methods.push(meth(ACC_PUBLIC | ACC_SYNTHETIC, "m", &bd, Some(vec![inv(CallKind::Virtual, &t(0), "m", &sd)])));
+		// a second unflagged synthetic whose bound is not an ancestor: the whole hierarchy is walked without a hit
+		jar.push(class("A", None, &[]));
+		jar[ti].methods.push(meth(ACC_PUBLIC | ACC_SYNTHETIC, "get", "(LA;)V", Some(vec![inv(CallKind::Virtual, &t(0), "m", &sd)])));
+		out.push(DetCase { label: format!("tower of {k} diamonds, order {order}"), g: JarGen { classes: jar, libs: vec![] }, maps: vec![] });
+	}
+}
+
 pub fn det_cases() -> Vec<DetCase> {
 	let mut out = vec![];
 	diamonds(&mut out);
@@ -209,5 +234,6 @@ pub fn det_cases() -> Vec<DetCase> {
 	shared_delegate(&mut out);
 	two_supers(&mut out);
 	indy(&mut out);
+	towers(&mut out);
 	out
 }
